@@ -53,18 +53,6 @@ FILES_ANCHORED = [
     'templatewriter/pages/sidebar.py', 'templatewriter/pages/attributechild.py', 'templatewriter/pages/functionchild.py',
     'extensions/__init__.py', 'themes/__init__.py', 'epydoc/markup/__init__.py',
 ]
-# sites that MUST be found (so that a rename of the anchored code cannot silently empty the table)
-REQUIRED = [
-    ('model.py', 'System.addPackage', 'SrcListing'),
-    ('model.py', 'Documentable.url', 'SrcRootNames'),
-    ('model.py', 'System.root_names', 'SrcSetExpr'),
-    ('templatewriter/writer.py', 'TemplateWriter.writeSummaryPages', 'SrcRootNames'),
-    ('templatewriter/summary.py', 'summaryPages', 'SrcRootNames'),
-    ('templatewriter/summary.py', 'IndexPage.rootkind', 'SrcSetExpr'),
-    ('linker.py', '_EpydocLinker._resolve_identifier_xref', 'SrcRootNames'),
-    ('templatewriter/__init__.py', 'Template.fromdir', 'SrcListing'),
-    ('extensions/__init__.py', '_importlib_resources_contents', 'SrcListing'),
-]
 # functions named in Props/C18.v as reviewed escapes: the translator only guarantees they exist and prints their ids
 NAMED_FUNCS = [
     ('extensions/__init__.py', '_importlib_resources_contents'),
@@ -77,6 +65,16 @@ SET_METHODS_RET = {'union', 'intersection', 'difference', 'symmetric_difference'
 SET_METHODS_OP = {'union', 'intersection', 'difference', 'symmetric_difference', 'copy', 'issubset', 'issuperset',
                   'isdisjoint'}
 LISTING_ATTRS = {'iterdir', 'listdir', 'scandir', 'glob', 'rglob', 'walk'}
+
+
+def _root_names_is_set() -> bool:
+    """the MEANING of System.root_names, asked of the live class: a set (unordered) or something ordered?"""
+    from pydoctor import model
+    v = model.System().root_names
+    return isinstance(v, (set, frozenset)) or not isinstance(v, (list, tuple))
+
+
+ROOT_NAMES_IS_SET = True
 
 
 class Shape(ValueError):
@@ -250,8 +248,81 @@ class FileScan:
             return True
         return isinstance(f, ast.Name) and f.id in ('listdir', 'scandir')
 
+    # ---------------------------------------------------------------- sequence variables
+    def is_order_source(self, e, locs: set, seqnames: set) -> bool:
+        if self.is_listing(e) or self.derived_set(e, locs):
+            return True
+        if isinstance(e, ast.Attribute) and e.attr == 'root_names' and ROOT_NAMES_IS_SET:
+            return True
+        return isinstance(e, ast.Name) and e.id in seqnames
+
+    def seq_value_source(self, v, locs: set, seqnames: set):
+        """if `v` is an UNORDERED SEQUENCE built from an order source -- list(S), tuple(S), [.. for x in S ..], (.. for x in S),
+        or a listing iterator itself -- return S"""
+        if isinstance(v, ast.Call) and isinstance(v.func, ast.Name) and v.func.id in ('list', 'tuple') and len(v.args) == 1 \
+                and not v.keywords:
+            inner = v.args[0]
+            if isinstance(inner, (ast.GeneratorExp, ast.ListComp)):
+                inner = inner.generators[0].iter
+            return inner if self.is_order_source(inner, locs, seqnames) else None
+        if isinstance(v, (ast.ListComp, ast.GeneratorExp)):
+            inner = v.generators[0].iter
+            return inner if self.is_order_source(inner, locs, seqnames) else None
+        if self.is_listing(v):
+            return v
+        return None
+
+    @staticmethod
+    def pos(n) -> tuple:
+        return (n.lineno, n.col_offset)
+
+    def seq_vars(self, fn, locs: set) -> list:
+        """[(name, from_pos, to_pos, src)]: inside `fn` the loads of `name` between the two positions denote a sequence in
+        unspecified order.  Tracking starts at `name = list(S)` (etc.) and ends at the first statement OF THE SAME BLOCK that
+        sorts it in place (`name.sort(..)`, still listed, as CtxSorted) or rebinds it."""
+        body = fn if fn is not None else self.tree
+        out = []
+        seqnames: set = set()
+        assigns = []
+        for node in ast.walk(body):
+            if isinstance(node, (ast.Assign, ast.AnnAssign)) and self.enclosing_func(node) is fn:
+                tg = node.targets if isinstance(node, ast.Assign) else [node.target]
+                if len(tg) == 1 and isinstance(tg[0], ast.Name) and node.value is not None:
+                    assigns.append(node)
+        assigns.sort(key=self.pos)
+        for node in assigns:
+            tg = node.targets[0] if isinstance(node, ast.Assign) else node.target
+            srcx = self.seq_value_source(node.value, locs, seqnames)
+            if srcx is None:
+                continue
+            name = tg.id
+            seqnames.add(name)
+            block = None
+            par = self.parent.get(node)
+            for fld in ('body', 'orelse', 'finalbody'):
+                lst = getattr(par, fld, None)
+                if isinstance(lst, list) and node in lst:
+                    block = lst
+            end = (10 ** 9, 0)
+            if block is not None:
+                for st in block[block.index(node) + 1:]:
+                    is_sort = (isinstance(st, ast.Expr) and isinstance(st.value, ast.Call) and isinstance(st.value.func, ast.Attribute)
+                               and st.value.func.attr == 'sort' and isinstance(st.value.func.value, ast.Name)
+                               and st.value.func.value.id == name)
+                    rebinds = isinstance(st, (ast.Assign, ast.AnnAssign, ast.AugAssign)) and any(
+                        isinstance(t, ast.Name) and t.id == name
+                        for t in (st.targets if isinstance(st, ast.Assign) else [st.target]))
+                    if is_sort or rebinds:
+                        end = (st.end_lineno, st.end_col_offset)
+                        break
+            kind = 'SrcListing' if (self.is_listing(srcx) or (isinstance(srcx, ast.Name) and any(
+                o[0] == srcx.id and o[3] == 'SrcListing' for o in out))) else 'SrcSetName'
+            out.append((name, (node.end_lineno, node.end_col_offset), end, kind))
+        return out
+
     def scan(self) -> None:
         loc_cache: dict = {}
+        seq_cache: dict = {}
         for node in ast.walk(self.tree):
             if self.in_annotation(node):
                 continue
@@ -264,9 +335,12 @@ class FileScan:
                     loc_cache[fn] = loc_cache[fn] | self.local_sets(up)
                     up = self.enclosing_func(up)
             locs = loc_cache[fn]
+            if fn not in seq_cache:
+                seq_cache[fn] = self.seq_vars(fn, locs)
+            self.cur_seq = seq_cache[fn]
             src = None
             if isinstance(node, ast.Attribute) and node.attr == 'root_names' and isinstance(node.ctx, ast.Load):
-                src = 'SrcRootNames'
+                src = 'SrcRootNames' if ROOT_NAMES_IS_SET else None
             elif isinstance(node, ast.Attribute) and node.attr in self.set_returning and isinstance(node.ctx, ast.Load):
                 src = 'SrcRootNames'
             elif self.syntactic_set(node):
@@ -278,6 +352,10 @@ class FileScan:
             elif self.is_tracked_load(node, locs):
                 # `S.add` etc: the Attribute node S.add is not itself a load of a set attribute
                 src = 'SrcSetName'
+            elif isinstance(node, ast.Name) and isinstance(node.ctx, ast.Load):
+                for name, a, b, kind in self.cur_seq:
+                    if node.id == name and a <= self.pos(node) < b:
+                        src = kind
             if src is None:
                 continue
             ctx = self.context(node, locs)
@@ -285,18 +363,69 @@ class FileScan:
                 continue
             self.sites.append((self.rel, node.lineno, self.qual(node), src, ctx, ast.unparse(node)[:60]))
 
-    def guard_len1(self, node, s_text: str) -> bool:
-        """is `node` inside the body of `if len(<s_text>) == 1:` ?"""
+    @staticmethod
+    def norm_cond(t, positive: bool = True) -> list:
+        """a condition as a list of normalised atoms that all hold: `not not X` -> X, `A and B` -> both (when positive),
+        `not (A or B)` -> not A, not B; comparisons with the constant on the left are turned round; `not a == b` -> a != b"""
+        if isinstance(t, ast.UnaryOp) and isinstance(t.op, ast.Not):
+            return FileScan.norm_cond(t.operand, not positive)
+        if isinstance(t, ast.BoolOp):
+            if (isinstance(t.op, ast.And) and positive) or (isinstance(t.op, ast.Or) and not positive):
+                return [a for v in t.values for a in FileScan.norm_cond(v, positive)]
+            return []
+        if isinstance(t, ast.Compare) and len(t.ops) == 1:
+            l, r, op = t.left, t.comparators[0], t.ops[0]
+            flip = {ast.Lt: ast.Gt, ast.Gt: ast.Lt, ast.LtE: ast.GtE, ast.GtE: ast.LtE}
+            if isinstance(l, ast.Constant) and not isinstance(r, ast.Constant) and not isinstance(op, (ast.In, ast.NotIn, ast.Is, ast.IsNot)):
+                l, r = r, l
+                op = flip.get(type(op), type(op))()
+            neg = {ast.Eq: ast.NotEq, ast.NotEq: ast.Eq, ast.Lt: ast.GtE, ast.GtE: ast.Lt, ast.Gt: ast.LtE, ast.LtE: ast.Gt,
+                   ast.Is: ast.IsNot, ast.IsNot: ast.Is, ast.In: ast.NotIn, ast.NotIn: ast.In}
+            if not positive:
+                op = neg[type(op)]()
+            sym = {ast.Eq: '==', ast.NotEq: '!=', ast.Lt: '<', ast.GtE: '>=', ast.Gt: '>', ast.LtE: '<=', ast.Is: 'is',
+                   ast.IsNot: 'is not', ast.In: 'in', ast.NotIn: 'not in'}[type(op)]
+            return ['%s %s %s' % (ast.unparse(l), sym, ast.unparse(r))]
+        return [('' if positive else 'not ') + ast.unparse(t)]
+
+    def guards_of(self, node) -> list:
+        """normalised conditions known to hold where `node` is evaluated: tests of the enclosing `if`s (negated in the else
+        branch), and the negations of earlier guard clauses of the enclosing blocks (`if T: return / continue / raise / break`)"""
+        out = []
         p, ch = self.parent.get(node), node
-        while p is not None:
-            if isinstance(p, ast.If) and ch in p.body:
-                t = p.test
-                if (isinstance(t, ast.Compare) and len(t.ops) == 1 and isinstance(t.ops[0], ast.Eq)
-                        and isinstance(t.left, ast.Call) and isinstance(t.left.func, ast.Name) and t.left.func.id == 'len'
-                        and len(t.left.args) == 1 and ast.unparse(t.left.args[0]) == s_text
-                        and isinstance(t.comparators[0], ast.Constant) and t.comparators[0].value == 1):
-                    return True
+        while p is not None and not isinstance(p, (ast.FunctionDef, ast.AsyncFunctionDef, ast.Lambda, ast.ClassDef, ast.Module)):
+            if isinstance(p, (ast.If, ast.IfExp)):
+                body = p.body if isinstance(p.body, list) else [p.body]
+                orelse = p.orelse if isinstance(p.orelse, list) else [p.orelse]
+                if ch in body:
+                    out += self.norm_cond(p.test, True)
+                elif ch in orelse:
+                    out += self.norm_cond(p.test, False)
+            for fld in ('body', 'orelse', 'finalbody'):
+                lst = getattr(p, fld, None)
+                if isinstance(lst, list) and ch in lst:
+                    for st in lst[:lst.index(ch)]:
+                        if isinstance(st, ast.If) and not st.orelse and st.body and \
+                                isinstance(st.body[-1], (ast.Return, ast.Continue, ast.Raise, ast.Break)):
+                            out += self.norm_cond(st.test, False)
             p, ch = self.parent.get(p), p
+        if isinstance(p, (ast.FunctionDef, ast.AsyncFunctionDef)) and ch in p.body:
+            for st in p.body[:p.body.index(ch)]:
+                if isinstance(st, ast.If) and not st.orelse and st.body and isinstance(st.body[-1], (ast.Return, ast.Raise)):
+                    out += self.norm_cond(st.test, False)
+        return out
+
+    def guard_len1(self, node, s_text: str) -> bool:
+        """does `len(<s_text>) == 1` hold where `node` is evaluated?"""
+        return ('len(%s) == 1' % s_text) in self.guards_of(node)
+
+    def bound_to_seq_var(self, value) -> bool:
+        """is the expression `value` the right-hand side of an assignment that starts a tracked sequence variable?"""
+        p = self.parent.get(value)
+        if isinstance(p, (ast.Assign, ast.AnnAssign)) and p.value is value:
+            tg = p.targets if isinstance(p, ast.Assign) else [p.target]
+            if len(tg) == 1 and isinstance(tg[0], ast.Name):
+                return any(name == tg[0].id and a == (p.end_lineno, p.end_col_offset) for name, a, b, kind in self.cur_seq)
         return False
 
     def key_kind(self, call: ast.Call) -> str:
@@ -306,10 +435,13 @@ class FileScan:
                 key = kw.value
             elif kw.arg != 'reverse':
                 raise Shape('unrecognised shape: sorted(... %s=) at %s:%d' % (kw.arg, self.rel, call.lineno))
-        if len(call.args) != 1:
-            raise Shape('unrecognised shape: sorted with %d positional args at %s:%d' % (len(call.args), self.rel, call.lineno))
+        want_args = 0 if (isinstance(call.func, ast.Attribute) and call.func.attr == 'sort') else 1
+        if len(call.args) != want_args:
+            raise Shape('unrecognised shape: sort with %d positional args at %s:%d' % (len(call.args), self.rel, call.lineno))
         if key is None:
             return 'KeyNone'
+        if ast.unparse(key) in ("attrgetter('name')", "operator.attrgetter('name')"):
+            return 'KeyAttrName'
         if isinstance(key, ast.Name) and key.id == '_lckey':
             return 'KeyLckey'
         if isinstance(key, ast.Lambda) and len(key.args.args) == 1:
@@ -336,6 +468,9 @@ class FileScan:
             tgts = p.targets if isinstance(p, ast.Assign) else [p.target]
             if all(isinstance(t, (ast.Name, ast.Attribute)) for t in tgts):
                 return 'CtxDefine'
+            if len(tgts) == 1 and isinstance(tgts[0], (ast.Tuple, ast.List)) and len(tgts[0].elts) == 1 \
+                    and not isinstance(tgts[0].elts[0], ast.Starred):
+                return 'CtxFirstLen1'        # (x,) = S : raises unless S has exactly one element
             raise Shape('unrecognised shape: set bound to %s at %s' % (ast.dump(tgts[0])[:40], where))
         if isinstance(p, ast.Return):
             f = self.enclosing_func(node)
@@ -356,6 +491,12 @@ class FileScan:
                     return 'CtxMember'
                 if p.attr in LISTING_ATTRS:
                     return None          # `x.iterdir` of a listing call handled at the Call node
+                if p.attr == 'sort':
+                    return 'CtxSorted ' + self.key_kind(gp)       # seq.sort(key=..): in place, same as sorted()
+                if p.attr in ('append', 'insert', 'remove', 'clear'):
+                    return 'CtxMutate'
+                if p.attr in ('count', 'index') and p.attr == 'count':
+                    return 'CtxMember'
             raise Shape('unrecognised shape: attribute .%s of a set at %s' % (p.attr, where))
         # ---- argument of a call
         if isinstance(p, ast.Call) and node in p.args:
@@ -373,6 +514,11 @@ class FileScan:
                     return 'CtxTruth'
                 if f.id in ('list', 'tuple'):
                     gp = self.parent.get(p)
+                    if self.bound_to_seq_var(p):
+                        return 'CtxDefine'       # name = list(S): the loads of `name` are listed as sites of their own
+                    if isinstance(gp, ast.Call) and isinstance(gp.func, ast.Name) and gp.func.id == 'sorted' and gp.args \
+                            and gp.args[0] is p:
+                        return 'CtxSorted ' + self.key_kind(gp)
                     if (isinstance(gp, ast.Compare) and gp.left is p and len(gp.ops) == 1 and isinstance(gp.ops[0], (ast.Eq, ast.NotEq))
                             and isinstance(gp.comparators[0], ast.List) and len(gp.comparators[0].elts) == 1):
                         return 'CtxEqSingleton'
@@ -380,7 +526,13 @@ class FileScan:
                             and gp.slice.value == 0 and self.guard_len1(node, s_text)):
                         return 'CtxFirstLen1'
                     return 'CtxIterate'
-                if f.id in ('iter', 'next', 'enumerate', 'zip', 'map', 'filter', 'reversed', 'min', 'max', 'sum'):
+                if f.id == 'iter':
+                    gp = self.parent.get(p)
+                    if isinstance(gp, ast.Call) and isinstance(gp.func, ast.Name) and gp.func.id == 'next' and len(gp.args) == 1 \
+                            and self.guard_len1(node, s_text):
+                        return 'CtxFirstLen1'    # next(iter(S)) where len(S) == 1
+                    return 'CtxIterate'
+                if f.id in ('next', 'enumerate', 'zip', 'map', 'filter', 'reversed', 'min', 'max', 'sum'):
                     return 'CtxIterate'
                 # a function of this file whose parameter is annotated as a set
                 if f.id in self.param_ann:
@@ -405,6 +557,8 @@ class FileScan:
             i = operands.index(node)
             if i > 0 and isinstance(ops[i - 1], (ast.In, ast.NotIn)):
                 return 'CtxMember'
+            if len(ops) == 1 and isinstance(ops[0], (ast.Is, ast.IsNot)):
+                return 'CtxTruth'            # S is None / S is not None
             if len(ops) == 1 and isinstance(ops[0], (ast.Eq, ast.NotEq)):
                 other = operands[1 - i]
                 if self.syntactic_set(other) or self.is_tracked_load(other, locs):
@@ -417,15 +571,27 @@ class FileScan:
             comp = self.parent.get(p)
             if isinstance(comp, ast.SetComp):
                 return 'CtxToSet'
-            if isinstance(comp, ast.GeneratorExp):
+            first = comp.generators[0] is p if hasattr(comp, 'generators') else False
+            if isinstance(comp, (ast.GeneratorExp, ast.ListComp)):
                 gp = self.parent.get(comp)
                 if isinstance(gp, ast.Call) and isinstance(gp.func, ast.Name) and comp in gp.args:
                     if gp.func.id in ('any', 'all'):
                         return 'CtxAnyAll'
                     if gp.func.id in ('set', 'frozenset'):
                         return 'CtxToSet'
+                    if gp.func.id == 'sorted' and gp.args[0] is comp and first:
+                        return 'CtxSorted ' + self.key_kind(gp)      # sorted(f(x) for x in S)
+                    if gp.func.id in ('list', 'tuple') and first:
+                        ggp = self.parent.get(gp)
+                        if self.bound_to_seq_var(gp):
+                            return 'CtxDefine'
+                        if isinstance(ggp, ast.Call) and isinstance(ggp.func, ast.Name) and ggp.func.id == 'sorted' \
+                                and ggp.args and ggp.args[0] is gp:
+                            return 'CtxSorted ' + self.key_kind(ggp)
+                if first and self.bound_to_seq_var(comp):
+                    return 'CtxDefine'
             return 'CtxIterate'
-        if isinstance(p, ast.Starred):
+        if isinstance(p, (ast.Starred, ast.FormattedValue, ast.Subscript)):
             return 'CtxIterate'
         if isinstance(p, (ast.YieldFrom,)):
             return 'CtxIterate'
@@ -445,108 +611,169 @@ class FileScan:
         raise Shape('unrecognised shape: %s is used by a %s at %s' % (s_text[:40], type(p).__name__, where))
 
 
-# -------------------------------------------------------------------------------- key functions
-def find_def(tree: ast.Module, name: str):
-    for st in tree.body:
-        if isinstance(st, ast.FunctionDef) and st.name == name:
-            return st
-    raise Shape('function %s not found' % name)
+# -------------------------------------------------------------------------------- key functions (by MEANING)
+PROBE_SRC = '''
+"""Probe module."""
+import zlib
+CONST = 1
+"""doc"""
+lower_var = 2
+class Alpha:
+    """A."""
+    attr = 1
+    def run(self): pass
+    def Run(self): pass
+    def _hidden(self): pass
+    @classmethod
+    def cm(cls): pass
+    @staticmethod
+    def sm(): pass
+    @property
+    def prop(self): return 1
+    class Inner:
+        x = 1
+class alpha(Alpha):
+    def run(self): pass
+class _Private:
+    def zz(self): pass
+class Err(Exception):
+    pass
+def func(): pass
+def Func(): pass
+def _pfunc(): pass
+'''
 
 
-def comp_of(e, arg: str, where: str) -> str:
-    t = ast.unparse(e)
-    table = {
-        '-%s.privacyClass.value' % arg: 'KNegPrivacy',
-        '-_map_kind(%s.kind).value if %s.kind else 0' % (arg, arg): 'KNegKindMapped',
-        '%s.fullName().lower()' % arg: 'KLowerFullName',
-        '%s.fullName()' % arg: 'KFullName',
-        '%s.linenumber' % arg: 'KLineno',
+def probe_objects() -> list:
+    """real Documentables of a small system: modules, packages, classes, functions, attributes, private ones, names that
+    differ only in case, several line numbers"""
+    from pydoctor import model
+    system = model.System()
+    b = system.systemBuilder(system)
+    b.addModuleString('"""pkg"""\nfrom .Mod import Alpha\n', 'Pk', is_package=True)
+    b.addModuleString(PROBE_SRC, 'Mod', parent_name='Pk')
+    b.addModuleString('x = 1\n', '_priv', parent_name='Pk')
+    b.addModuleString('"""sub"""\n', 'sub', parent_name='Pk', is_package=True)
+    b.addModuleString(PROBE_SRC, 'mod')
+    b.buildModules()
+    objs = list(system.allobjects.values())
+    if len(objs) < 40:
+        raise Shape('probe system too small (%d objects)' % len(objs))
+    return objs
+
+
+def learn_key(fn, objs: list, where: str) -> tuple:
+    """the tuple `fn(o)` explained position by position by one of the key components, for all probe objects.
+    Returns (components, kind map learnt from the KNegKindMapped position)."""
+    from pydoctor import model
+    rows = [fn(o) for o in objs]
+    if not rows or not all(isinstance(r, tuple) and len(r) == len(rows[0]) for r in rows):
+        raise Shape('unrecognised shape: %s does not return tuples of one length' % where)
+    simple = {
+        'KNegPrivacy': lambda o: -o.privacyClass.value,
+        'KLowerFullName': lambda o: o.fullName().lower(),
+        'KFullName': lambda o: o.fullName(),
+        'KLineno': lambda o: o.linenumber,
     }
-    if t in table:
-        return table[t]
-    raise Shape('unrecognised shape: sort key component %r in %s' % (t, where))
-
-
-def key_tuple(ret, arg: str, where: str) -> list:
-    if not (isinstance(ret, ast.Return) and isinstance(ret.value, ast.Tuple)):
-        raise Shape('unrecognised shape: %s does not return a tuple' % where)
-    return [comp_of(e, arg, where) for e in ret.value.elts]
-
-
-def body_wo_doc(fn) -> list:
-    b = fn.body
-    if b and isinstance(b[0], ast.Expr) and isinstance(b[0].value, ast.Constant) and isinstance(b[0].value.value, str):
-        b = b[1:]
-    return b
+    comps = []
+    kmap: dict = {}
+    for i in range(len(rows[0])):
+        col = [r[i] for r in rows]
+        hit = [name for name, f in simple.items() if all(f(o) == v for o, v in zip(objs, col))]
+        if len(hit) == 1:
+            comps.append(hit[0])
+            continue
+        if len(hit) > 1:
+            raise Shape('ambiguous sort key component %d of %s: %s (probe set too poor)' % (i, where, hit))
+        # a function of the kind only: -(some kind).value, 0 for no kind  -> learn the kind map by setting every kind
+        cand = [x for x in objs if isinstance(x, model.Attribute)]
+        if not cand:
+            cand = objs
+        o = cand[0]
+        saved = o.kind
+        learnt = {}
+        try:
+            for k in model.DocumentableKind:
+                o.kind = k
+                v = fn(o)[i]
+                back = [k2 for k2 in model.DocumentableKind if -k2.value == v]
+                if len(back) != 1:
+                    raise Shape('unrecognised shape: sort key component %d of %s is not minus a kind value' % (i, where))
+                learnt[k] = back[0]
+            o.kind = None
+            if fn(o)[i] != 0:
+                raise Shape('unrecognised shape: sort key component %d of %s for an object without kind is not 0' % (i, where))
+        finally:
+            o.kind = saved
+        if not all((-(learnt[x.kind].value) if x.kind else 0) == v for x, v in zip(objs, col)):
+            raise Shape('unrecognised shape: sort key component %d of %s' % (i, where))
+        comps.append('KNegKindMapped')
+        kmap = {k.name: v.name for k, v in learnt.items() if k is not v}
+    return comps, kmap
 
 
 def key_functions() -> dict:
+    from pydoctor import model
+    from pydoctor.templatewriter import util, summary
+    objs = probe_objects()
+    mods = [o for o in objs if isinstance(o, model.Module)]
+    others = [o for o in objs if not isinstance(o, model.Module)]
     out = {}
-    util = ast.parse((REPO / 'pydoctor/templatewriter/util.py').read_text())
-    summ = ast.parse((REPO / 'pydoctor/templatewriter/summary.py').read_text())
-    f = find_def(summ, '_lckey')
-    b = body_wo_doc(f)
-    if len(b) != 1:
-        raise Shape('unrecognised shape: _lckey body')
-    out['lckey_def'] = key_tuple(b[0], f.args.args[0].arg, 'summary._lckey')
-    f = find_def(util, 'alphabetical_order_func')
-    b = body_wo_doc(f)
-    if len(b) != 1:
-        raise Shape('unrecognised shape: alphabetical_order_func body')
-    out['alphabetical_def'] = key_tuple(b[0], f.args.args[0].arg, 'util.alphabetical_order_func')
-    f = find_def(util, 'source_order_func')
-    b = body_wo_doc(f)
-    a = f.args.args[0].arg
-    if not (len(b) == 1 and isinstance(b[0], ast.If) and ast.unparse(b[0].test) == 'isinstance(%s, model.Module)' % a
-            and len(b[0].orelse) == 1):
-        raise Shape('unrecognised shape: source_order_func body')
-    mb = [s for s in b[0].body if isinstance(s, ast.Return)]
-    ob = [s for s in b[0].orelse if isinstance(s, ast.Return)]
-    if len(mb) != 1 or len(ob) != 1:
-        raise Shape('unrecognised shape: source_order_func returns')
-    out['source_module_def'] = key_tuple(mb[0], a, 'util.source_order_func[module]')
-    out['source_other_def'] = key_tuple(ob[0], a, 'util.source_order_func[other]')
-    f = find_def(util, 'objects_order')
-    b = body_wo_doc(f)
-    txt = ast.unparse(ast.Module(body=b, type_ignores=[]))
-    want = ("if order == 'alphabetical':\n    return alphabetical_order_func\nelif order == 'source':\n"
-            "    return source_order_func\nelse:\n    assert False")
-    if txt != want:
-        raise Shape('unrecognised shape: objects_order body:\n' + txt)
-    f = find_def(util, '_map_kind')
-    b = body_wo_doc(f)
-    txt = ast.unparse(ast.Module(body=b, type_ignores=[]))
-    want = ("if kind == model.DocumentableKind.PACKAGE:\n    return model.DocumentableKind.MODULE\nreturn kind")
-    if txt != want:
-        raise Shape('unrecognised shape: _map_kind body:\n' + txt)
-    out['map_kind'] = [('PACKAGE', 'MODULE')]
+    for attr_, mod_ in (('_lckey', summary), ('alphabetical_order_func', util), ('source_order_func', util), ('objects_order', util)):
+        if not callable(getattr(mod_, attr_, None)):
+            raise Shape('%s.%s not found (renamed?)' % (mod_.__name__, attr_))
+    out['lckey_def'], _ = learn_key(summary._lckey, objs, 'summary._lckey')
+    out['alphabetical_def'], km1 = learn_key(util.alphabetical_order_func, objs, 'util.alphabetical_order_func')
+    out['source_module_def'], km2 = learn_key(util.source_order_func, mods, 'util.source_order_func[modules]')
+    out['source_other_def'], km3 = learn_key(util.source_order_func, others, 'util.source_order_func[others]')
+    if not (km1 == km2 == km3):
+        raise Shape('unrecognised shape: the order functions map kinds differently: %r %r %r' % (km1, km2, km3))
+    # objects_order(order) hands out exactly these two functions (compared by behaviour, not by identity)
+    for order, ref in (('alphabetical', util.alphabetical_order_func), ('source', util.source_order_func)):
+        f = util.objects_order(order)
+        if not all(f(o) == ref(o) for o in objs):
+            raise Shape('unrecognised shape: objects_order(%r) is not %s' % (order, ref.__name__))
+    out['map_kind'] = sorted(km1.items())
     return out
 
 
 def counters() -> list:
-    """class attributes `X = 0` incremented as `Cls.X += 1` inside __init__ and copied to self._id"""
+    """class attributes initialised to 0 that __init__ increments through the CLASS (Cls.X += 1, Cls.X = Cls.X + 1,
+    type(self).X += 1, self.__class__.X += 1) and then copies into the instance"""
     res = []
     for rel in ('templatewriter/pages/table.py', 'templatewriter/pages/sidebar.py'):
         tree = ast.parse((REPO / 'pydoctor' / rel).read_text())
         for cls in [n for n in tree.body if isinstance(n, ast.ClassDef)]:
-            zeros = [t.id for st in cls.body if isinstance(st, ast.Assign) and isinstance(st.value, ast.Constant)
-                     and st.value.value == 0 for t in st.targets if isinstance(t, ast.Name)]
+            zeros = [t.id for st in cls.body if isinstance(st, (ast.Assign, ast.AnnAssign)) and isinstance(st.value, ast.Constant)
+                     and st.value.value == 0 for t in (st.targets if isinstance(st, ast.Assign) else [st.target])
+                     if isinstance(t, ast.Name)]
+            init = [f for f in cls.body if isinstance(f, ast.FunctionDef) and f.name == '__init__']
             for z in zeros:
-                init = [f for f in cls.body if isinstance(f, ast.FunctionDef) and f.name == '__init__']
                 if not init:
                     continue
-                stmts = [ast.unparse(s) for s in ast.walk(init[0]) if isinstance(s, (ast.AugAssign, ast.Assign))]
-                inc = '%s.%s += 1' % (cls.name, z)
-                cp = 'self._id = %s.%s' % (cls.name, z)
-                if inc in stmts and cp in stmts:
-                    if stmts.index(inc) > stmts.index(cp):
+                refs = ['%s.%s' % (c, z) for c in (cls.name, 'type(self)', 'self.__class__')]
+                inc_pos = cp_pos = None
+                for st in ast.walk(init[0]):
+                    if isinstance(st, ast.AugAssign) and ast.unparse(st.target) in refs and isinstance(st.op, ast.Add) \
+                            and ast.unparse(st.value) == '1':
+                        inc_pos = (st.lineno, st.col_offset)
+                    elif isinstance(st, ast.Assign) and ast.unparse(st.targets[-1]) in refs and any(
+                            ast.unparse(st.value) in ('%s + 1' % r, '1 + %s' % r) for r in refs):
+                        inc_pos = (st.lineno, st.col_offset)
+                        if len(st.targets) > 1:          # self._id = Cls.X = Cls.X + 1
+                            cp_pos = (st.lineno, st.col_offset + 1)
+                    elif isinstance(st, ast.Assign) and isinstance(st.targets[0], ast.Attribute) \
+                            and ast.unparse(st.targets[0].value) == 'self' and ast.unparse(st.value) in refs + ['self.' + z]:
+                        cp_pos = (st.lineno, st.col_offset)
+                if inc_pos and cp_pos:
+                    if inc_pos > cp_pos:
                         raise Shape('unrecognised shape: counter %s.%s copied before the increment' % (cls.name, z))
                     res.append((rel, cls.name, z))
-                elif inc in stmts or cp in stmts:
+                elif inc_pos or cp_pos:
                     raise Shape('unrecognised shape: counter %s.%s in %s' % (cls.name, z, rel))
-    names = [(c, z) for _, c, z in res]
-    if names != [('ChildTable', 'last_id'), ('ExpandableItem', 'last_ExpandableItem_id')]:
-        raise Shape('unrecognised shape: page counters are %r' % (names,))
+    if len(res) != 2:
+        raise Shape('unrecognised shape: page counters are %r (the model has two: one for child tables, one for sidebar items)'
+                    % ([(c, z) for _, c, z in res],))
     return res
 
 
@@ -579,30 +806,49 @@ def write_modes(scans) -> list:
                 continue
             kind = 'WTrunc' if ('w' in m and 'a' not in m and 'x' not in m) else ('WAppend' if 'a' in m else ('WExcl' if 'x' in m else 'WUpdate'))
             res.append((sc.rel, node.lineno, kind, m))
-    need = {'templatewriter/writer.py': 2, 'templatewriter/__init__.py': 1, 'templatewriter/search.py': 1, 'sphinx.py': 1}
-    for rel, n in need.items():
-        got = len([r for r in res if r[0] == rel])
-        if got < n:
-            raise Shape('expected at least %d writing open() calls in %s, found %d' % (n, rel, got))
+    # the pages, the static files, the search index and the inventory are written somewhere: an (almost) empty table means the
+    # translator no longer sees how (wherever the calls live now; Path.write_bytes / write_text truncate by definition)
+    nwrite = len([n for sc in scans for n in ast.walk(sc.tree) if isinstance(n, ast.Call) and isinstance(n.func, ast.Attribute)
+                  and n.func.attr in ('write_bytes', 'write_text')])
+    if len(res) + nwrite < 4:
+        raise Shape('expected at least 4 places that write a file in pydoctor, found %d' % (len(res) + nwrite))
     return res
 
 
 def relink_shape(scans) -> bool:
-    """writer.writeSummaryPages: the compat symlink is removed (FileNotFoundError tolerated) and created again"""
-    sc = [x for x in scans if x.rel == 'templatewriter/writer.py'][0]
-    for node in ast.walk(sc.tree):
-        if isinstance(node, ast.FunctionDef) and node.name == 'writeSummaryPages':
-            for st in ast.walk(node):
-                if isinstance(st, ast.If) and ast.unparse(st.test) == 'len(system.root_names) == 1':
-                    body = [ast.unparse(x) for x in st.body]
-                    want_try = 'try:\n    root_module_path.unlink()\nexcept FileNotFoundError:\n    pass'
-                    if (len(body) == 2 and body[0].startswith('root_module_path = ') and isinstance(st.body[1], ast.If)
-                            and ast.unparse(st.body[1].test) == "root_module_path.name != 'index.html'"
-                            and not st.body[1].orelse
-                            and [ast.unparse(x) for x in st.body[1].body] == [want_try, "root_module_path.symlink_to('index.html')"]):
-                        return True
-                    raise Shape('unrecognised shape: symlink handling in writeSummaryPages:\n' + '\n'.join(body))
-    raise Shape('unrecognised shape: writeSummaryPages has no `if len(system.root_names) == 1` block')
+    """the compat symlink `<x>.symlink_to('index.html')`: the same path is unlinked before, tolerating its absence
+    (try/except FileNotFoundError: pass, unlink(missing_ok=True), contextlib.suppress(FileNotFoundError))"""
+    found = False
+    for sc in scans:
+        for node in ast.walk(sc.tree):
+            if not (isinstance(node, ast.Call) and isinstance(node.func, ast.Attribute) and node.func.attr == 'symlink_to'):
+                continue
+            if not (len(node.args) == 1 and isinstance(node.args[0], ast.Constant) and node.args[0].value == 'index.html'):
+                raise Shape('unrecognised shape: symlink_to(%s) at %s:%d' % (ast.unparse(node.args[0]) if node.args else '', sc.rel, node.lineno))
+            recv = ast.unparse(node.func.value)
+            fn = sc.enclosing_func(node)
+            ok = False
+            for u in ast.walk(fn):
+                if isinstance(u, ast.Call) and isinstance(u.func, ast.Attribute) and u.func.attr == 'unlink' \
+                        and ast.unparse(u.func.value) == recv and (u.lineno, u.col_offset) < (node.lineno, node.col_offset):
+                    if any(kw.arg == 'missing_ok' and isinstance(kw.value, ast.Constant) and kw.value.value is True for kw in u.keywords):
+                        ok = True
+                    q, ch = sc.parent.get(u), u
+                    while q is not None and q is not fn:
+                        if isinstance(q, ast.Try) and ch in q.body and any(
+                                h.type is not None and 'FileNotFoundError' in ast.unparse(h.type)
+                                and all(isinstance(b, ast.Pass) for b in h.body) for h in q.handlers):
+                            ok = True
+                        if isinstance(q, ast.With) and any('suppress(FileNotFoundError)' in ast.unparse(it.context_expr) for it in q.items):
+                            ok = True
+                        q, ch = sc.parent.get(q), q
+            if not ok:
+                raise Shape('unrecognised shape: %s.symlink_to(\'index.html\') at %s:%d is not preceded by an unlink of the same path '
+                            'that tolerates its absence' % (recv, sc.rel, node.lineno))
+            found = True
+    if not found:
+        raise Shape('unrecognised shape: no symlink_to(\'index.html\') found (the compat symlink of a single root module)')
+    return True
 
 
 CLOCK_CALLS = ('time.time', 'time.monotonic', 'time.perf_counter', 'time.localtime', 'time.gmtime', 'time.strftime',
@@ -612,8 +858,8 @@ CLOCK_CALLS = ('time.time', 'time.monotonic', 'time.perf_counter', 'time.localti
 
 def clock_reads(scans) -> list:
     """every read of the wall clock in the scanned files with what consumes it:
-       ClkDefaultBuildtime  `self.buildtime = datetime.datetime.now()` in System.__init__ (the default that get_system overrides)
-       ClkLocalTimer        `T = time.time()`                           ClkInMsg   an argument of a <x>.msg(...) call
+       ClkDefaultBuildtime  `self.buildtime = <now>` inside class System (the default that get_system overrides)
+       ClkLocalTimer        `T = time.time()` where T is only used inside <x>.msg(...)      ClkInMsg   an argument of a <x>.msg(...) call
        ClkOther             anything else"""
     res = []
     for sc in scans:
@@ -624,11 +870,12 @@ def clock_reads(scans) -> list:
                 continue                        # formats a given time
             p = sc.parent.get(node)
             ctx = 'ClkOther'
-            if isinstance(p, ast.Assign) and len(p.targets) == 1:
-                t = ast.unparse(p.targets[0])
-                if t == 'self.buildtime' and sc.qual(node) == 'System.__init__':
+            if isinstance(p, (ast.Assign, ast.AnnAssign)) and (len(p.targets) == 1 if isinstance(p, ast.Assign) else True):
+                tgt = p.targets[0] if isinstance(p, ast.Assign) else p.target
+                t = ast.unparse(tgt)
+                if t == 'self.buildtime' and sc.qual(node).split('.')[0] == 'System':
                     ctx = 'ClkDefaultBuildtime'
-                elif isinstance(p.targets[0], ast.Name):
+                elif isinstance(tgt, ast.Name):
                     # a local timer: every load of it must sit inside a .msg(...) call
                     fn = sc.enclosing_func(node)
                     ok = True
@@ -649,46 +896,87 @@ def clock_reads(scans) -> list:
                         ctx = 'ClkInMsg'
                     q = sc.parent.get(q)
             res.append((sc.rel, node.lineno, ctx, ast.unparse(node)))
-    if not any(c == 'ClkDefaultBuildtime' for _, _, c, _ in res):
-        raise Shape('unrecognised shape: System.__init__ no longer sets self.buildtime = datetime.datetime.now()')
     return res
 
 
 def buildtime_sources(scans) -> list:
-    """driver.get_system: the assignments to system.buildtime, in order"""
+    """the assignments to <system>.buildtime that driver.get_system performs, in execution order, FOLLOWING calls into the
+    helper functions of driver.py.  Recognised meanings:
+      BEnvEpoch  utcfromtimestamp(int(E)) where E is os.environ['SOURCE_DATE_EPOCH'] with the absence tolerated (KeyError: pass,
+                 or under `'SOURCE_DATE_EPOCH' in os.environ`), or a local bound to os.environ.get('SOURCE_DATE_EPOCH') /
+                 os.getenv(..) under `is not None`
+      BOption    strptime(<options>.buildtime, BUILDTIME_FORMAT) (or through a local alias) under the truth of that value"""
     sc = [x for x in scans if x.rel == 'driver.py'][0]
-    fn = [n for n in sc.tree.body if isinstance(n, ast.FunctionDef) and n.name == 'get_system']
-    if not fn:
+    funcs = {n.name: n for n in sc.tree.body if isinstance(n, ast.FunctionDef)}
+    if 'get_system' not in funcs:
         raise Shape('driver.get_system not found')
-    out = []
-    for node in ast.walk(fn[0]):
-        if isinstance(node, ast.Assign) and ast.unparse(node.targets[0]) == 'system.buildtime':
-            v = ast.unparse(node.value)
-            p = sc.parent.get(node)
-            if v == "datetime.datetime.utcfromtimestamp(int(os.environ['SOURCE_DATE_EPOCH']))" and isinstance(p, ast.Try) \
-                    and [ast.unparse(h.type) for h in p.handlers] == ['ValueError', 'KeyError'] \
-                    and ast.unparse(p.handlers[1].body[0]) == 'pass':
-                out.append((node.lineno, 'BEnvEpoch'))
-            elif v == 'datetime.datetime.strptime(options.buildtime, BUILDTIME_FORMAT)':
-                q = p
-                while q is not None and not isinstance(q, ast.If):
-                    q = sc.parent.get(q)
-                if q is None or ast.unparse(q.test) != 'options.buildtime':
-                    raise Shape('unrecognised shape: --buildtime assignment is not under `if options.buildtime:`')
-                out.append((node.lineno, 'BOption'))
-            else:
-                raise Shape('unrecognised shape: system.buildtime = %s at driver.py:%d' % (v, node.lineno))
-    out.sort()
+    out: list = []
+    seen: set = set()
+
+    def local_value(fn, name: str):
+        vals = [st.value for st in ast.walk(fn) if isinstance(st, ast.Assign) and len(st.targets) == 1
+                and isinstance(st.targets[0], ast.Name) and st.targets[0].id == name]
+        return vals[0] if len(vals) == 1 else None
+
+    def classify(node, fn) -> str:
+        v = node.value
+        txt = ast.unparse(v)
+        where = 'driver.py:%d' % node.lineno
+        guards = sc.guards_of(node)
+        if isinstance(v, ast.Call) and ast.unparse(v.func) == 'datetime.datetime.utcfromtimestamp' and len(v.args) == 1 \
+                and isinstance(v.args[0], ast.Call) and ast.unparse(v.args[0].func) == 'int' and len(v.args[0].args) == 1:
+            e = v.args[0].args[0]
+            et = ast.unparse(e)
+            if et == "os.environ['SOURCE_DATE_EPOCH']":
+                if "'SOURCE_DATE_EPOCH' in os.environ" in guards:
+                    return 'BEnvEpoch'
+                q, ch = sc.parent.get(node), node
+                while q is not None and q is not fn:
+                    if isinstance(q, ast.Try) and ch in q.body and any(
+                            h.type is not None and 'KeyError' in ast.unparse(h.type)
+                            and all(isinstance(b, ast.Pass) for b in h.body) for h in q.handlers):
+                        return 'BEnvEpoch'
+                    q, ch = sc.parent.get(q), q
+            elif isinstance(e, ast.Name):
+                lv = local_value(fn, e.id)
+                if lv is not None and ast.unparse(lv) in ("os.environ.get('SOURCE_DATE_EPOCH')", "os.environ.get('SOURCE_DATE_EPOCH', None)",
+                                                          "os.getenv('SOURCE_DATE_EPOCH')") and ('%s is not None' % e.id) in guards:
+                    return 'BEnvEpoch'
+            raise Shape('unrecognised shape: build time from the environment at %s: %s (guards %s)' % (where, txt, guards))
+        if isinstance(v, ast.Call) and ast.unparse(v.func) == 'datetime.datetime.strptime' and len(v.args) == 2 \
+                and ast.unparse(v.args[1]) == 'BUILDTIME_FORMAT':
+            e = v.args[0]
+            if isinstance(e, ast.Attribute) and e.attr == 'buildtime' and ast.unparse(e) in guards:
+                return 'BOption'
+            if isinstance(e, ast.Name):
+                lv = local_value(fn, e.id)
+                if lv is not None and isinstance(lv, ast.Attribute) and lv.attr == 'buildtime' and e.id in guards:
+                    return 'BOption'
+            raise Shape('unrecognised shape: build time from the option at %s: %s (guards %s)' % (where, txt, guards))
+        raise Shape('unrecognised shape: <system>.buildtime = %s at %s' % (txt, where))
+
+    def walk_fn(fn, stack: list) -> None:
+        nodes = [n for n in ast.walk(fn) if isinstance(n, (ast.Assign, ast.Call)) and sc.enclosing_func(n) is fn]
+        nodes.sort(key=lambda n: (n.lineno, n.col_offset))
+        for n in nodes:
+            if isinstance(n, ast.Call) and isinstance(n.func, ast.Name) and n.func.id in funcs and n.func.id not in stack:
+                if len(stack) > 6:
+                    raise Shape('helper nesting too deep below get_system')
+                walk_fn(funcs[n.func.id], stack + [n.func.id])
+            elif isinstance(n, ast.Assign) and any(isinstance(t, ast.Attribute) and t.attr == 'buildtime' for t in n.targets):
+                out.append(classify(n, fn))
+                seen.add(n)
+    walk_fn(funcs['get_system'], ['get_system'])
     for sc2 in scans:                      # nobody else may set it
         for node in ast.walk(sc2.tree):
             if isinstance(node, (ast.Assign, ast.AugAssign, ast.AnnAssign)):
                 tg = node.targets if isinstance(node, ast.Assign) else [node.target]
                 for t in tg:
-                    if isinstance(t, ast.Attribute) and t.attr == 'buildtime':
-                        where = (sc2.rel, sc2.qual(node))
-                        if where not in (('driver.py', 'get_system'), ('model.py', 'System.__init__')):
-                            raise Shape('unrecognised shape: buildtime assigned in %s:%s' % where)
-    return [k for _, k in out]
+                    if isinstance(t, ast.Attribute) and t.attr == 'buildtime' and node not in seen:
+                        if not (sc2.rel == 'model.py' and sc2.qual(node).split('.')[0] == 'System' and ast.unparse(t) == 'self.buildtime'):
+                            raise Shape('unrecognised shape: buildtime assigned in %s:%s, not reachable from driver.get_system'
+                                        % (sc2.rel, sc2.qual(node)))
+    return out
 
 
 def coq_text(s: str) -> str:
@@ -696,6 +984,8 @@ def coq_text(s: str) -> str:
 
 
 def generate() -> dict:
+    global ROOT_NAMES_IS_SET
+    ROOT_NAMES_IS_SET = _root_names_is_set()
     FILES = _all_files()
     for rel in FILES_ANCHORED:
         if rel not in FILES:
@@ -716,9 +1006,11 @@ def generate() -> dict:
     for s in scans:
         s.scan()
     sites = [x for s in scans for x in s.sites]
-    for rel, fn, src in REQUIRED:
-        if not any(a == rel and b == fn and c == src for a, _, b, c, _, _ in sites):
-            raise Shape('required order source %s in %s:%s not found (code moved or renamed?)' % (src, rel, fn))
+    named = {fn for _, fn in NAMED_FUNCS}
+    if not any(c == 'SrcListing' and b not in named for _, _, b, c, _, _ in sites):
+        raise Shape('no directory listing of the PROJECT found anywhere (System.addPackage moved out of sight?)')
+    if ROOT_NAMES_IS_SET and not any(c == 'SrcRootNames' for _, _, _, c, _, _ in sites):
+        raise Shape('System.root_names is a set but no use of it was found')
     funcs = sorted({(a, b) for a, _, b, _, _, _ in sites} | set(NAMED_FUNCS))
     fid = {f: i for i, f in enumerate(funcs)}
     file_id = {rel: i for i, rel in enumerate(FILES)}
